@@ -164,6 +164,32 @@ theorem c06_second_evaluate_hits (W : World D S F) (hit : F → F → Bool) (hr 
   obtain ⟨ic, h1, h2, h3⟩ := key
   simp only [evalC, interpCall, h1, h2, h3, and_self, if_true]
 
+/-! ### data sets of different size: nothing is truncated -/
+
+/-- all arrays of one trial have that trial's number of events -/
+def C06.WellFormed (W : World D S F) : Prop := ∀ d s k g, (W.man d s k g).length = (W.bkg d s).length
+
+/-- **sizes**: after any history (through trials of any sizes) an evaluation returns one block per
+source and every block has the number of events of the *current* trial — the `zipWith`s of the
+model never truncate, i.e. the model does not silently paper over a stale array of another size. -/
+theorem c06_no_truncation (W : World D S F) (v : Variant) (hit : F → F → Bool) (cfg : Cfg)
+    (hs : Sound v cfg hit) (hw : C06.WellFormed W) (d0 : D) (s0 : S) (ops : List (Op D S F))
+    (q : Query F) (hq : q.x.length = q.key.length) :
+    let o := (evalC W hit cfg (runSt W v hit cfg (fresh d0 s0) ops) q).2
+    let n := (W.bkg (lastData d0 ops) (lastSrc s0 ops)).length
+    o.ratio.length = q.key.length ∧ o.grad.length = q.key.length ∧
+    (∀ b ∈ o.ratio, b.length = n) ∧ (∀ b ∈ o.grad, b.length = n) := by
+  intro o n
+  have ht := (c06_transparent W v hit cfg hs d0 s0 ops q).1
+  have hsh := evalPure_shape W cfg.parabola (lastData d0 ops) (lastSrc s0 ops) q
+    (fun k g => hw _ _ k g) hq
+  have h1 : o.ratio = (evalPure W cfg.parabola (lastData d0 ops) (lastSrc s0 ops) q).1 :=
+    congrArg Prod.fst ht
+  have h2 : o.grad = (evalPure W cfg.parabola (lastData d0 ops) (lastSrc s0 ops) q).2 :=
+    congrArg Prod.snd ht
+  rw [h1, h2]
+  exact hsh
+
 /-! ### every evaluate of a history, including failing ones -/
 
 /-- **trace theorem**: along any history every evaluate (not only a final one) answers with the
@@ -468,6 +494,26 @@ theorem c06_stale_nsgrad_counterexample :
     (run C06.W0 v (· == ·) cfg (fresh 0 0) [.evaluate q, .initTrial 1, .grad2]).2.map C06.grad2Data
       = [none, none, some 0] ∧
     (run C06.W0 v (· == ·) cfg (fresh 1 0) [.grad2]).2.map C06.isError = [true] := by decide
+
+/-- data set `d` has `d + 1` events -/
+def C06.W3 : World Nat Nat Int :=
+  { man := fun d _ _ g => List.replicate (d + 1) ((d : Int) + g), bkg := fun d _ => List.replicate (d + 1) 1,
+    up := (· + 1), lo := (· - 1), dx := 1, inGrid := fun _ => true }
+
+/-- `WellFormed` is inhabited by a world with data sets of different size … -/
+example : C06.WellFormed C06.W3 := by intro d s k g; simp [C06.W3]
+
+/-- … and on the pinned commit (stuck state id) the stale coefficients of the one-event trial are
+zipped with the three-event background of the next trial: the answer has the *wrong shape*
+(numpy: `ValueError: operands could not be broadcast together`), where the repaired code
+(`c06_no_truncation`) returns three values. -/
+theorem c06_stale_shape_counterexample :
+    let v : Variant := ⟨false, true, true, true⟩
+    let cfg : Cfg := ⟨false, false, false, false, false⟩
+    let q : Query Int := ⟨2, [0], [0]⟩
+    let st := runSt C06.W3 v (· == ·) cfg (fresh 0 0) [.evaluate q, .initTrial 2]
+    (evalC C06.W3 (· == ·) cfg st q).2.ratio.map List.length = [1] ∧
+    (evalPure C06.W3 false 2 0 q).1.map List.length = [3] := by decide
 
 /-- review round — `evaluate` that does not clear the cached ns-gradients first: after a *failed*
 evaluation (grid point 6 does not exist) the second derivative is that of the earlier point, where a
